@@ -15,7 +15,35 @@ import Dtn7.Model.Bundle
 import Dtn7.Model.BundleSpec
 
 namespace Dtn7.BundleText
-open Dtn7.Cbor Dtn7.Eid Dtn7.Bundle Driver
+open Dtn7.Cbor Dtn7.Eid Dtn7.Bundle
+open Driver (fields)
+
+@[inline] def hexNibble (c : UInt8) : Nat :=
+  if 48 ≤ c && c ≤ 57 then (c - 48).toNat
+  else if 97 ≤ c && c ≤ 102 then (c - 87).toNat
+  else if 65 ≤ c && c ≤ 70 then (c - 55).toNat
+  else 255
+
+/-- Hex string → bytes, walking the UTF-8 buffer from the end (no `Char` list). -/
+def parseHex (s : String) : Option (List UInt8) :=
+  if s == "-" || s == "" then some [] else
+  let b := s.toUTF8
+  if b.size % 2 = 1 then none else
+  let rec go (i : Nat) (acc : List UInt8) (fuel : Nat) : Option (List UInt8) :=
+    match fuel with
+    | 0 => some acc
+    | fuel + 1 =>
+      let hi := hexNibble (b.get! (i - 2))
+      let lo := hexNibble (b.get! (i - 1))
+      if hi > 15 || lo > 15 then none else go (i - 2) (UInt8.ofNat (hi * 16 + lo) :: acc) fuel
+  go b.size [] (b.size / 2)
+
+def hexChar (n : UInt8) : UInt8 := if n < 10 then n + 48 else n + 87
+
+def toHex (bs : List UInt8) : String :=
+  if bs.isEmpty then "-" else
+  let arr := bs.foldl (fun (a : ByteArray) b => (a.push (hexChar (b / 16))).push (hexChar (b % 16))) (ByteArray.emptyWithCapacity (2 * bs.length))
+  String.fromUTF8! arr
 
 def showEid : Eid → String
   | .none => "n"
